@@ -6,11 +6,14 @@ open Nitime.C10.Props
 #print axioms arLD_sigma
 #print axioms arLD_sigma_prod
 #print axioms sigma_pos
+#print axioms arLD_stable
 #print axioms isSolution_iff_YW
 #print axioms yw_unique
 #print axioms arYW_eq_arLD
 #print axioms exact_recovery
 #print axioms arYW_sigma
+#print axioms gjSolve_isSolution
+#print axioms arYW_gj_eq_arLD
 #print axioms autocorr_is_lagged_sum
 #print axioms autocorr_zero_real
 #print axioms arPsd_formula
